@@ -43,7 +43,7 @@ txt = ("One hundred and sixty changes were produced by fresh sub-agents that saw
        "C10_m7: extract_if on a sparse table with a two-group collision chain; C19_m7: par_eq on the same map object with a non-reflexive value); "
        "round 8 (20; again only code that no earlier round had touched): 16 with replay, 1 no-failing-input (C08_m8: the capacity oracles judged the spare room from the dumped growth_left, not from what capacity() itself answers), "
        "3 NOT reported (C02_m8: an over-aligned zero-sized element met a removal only by a random choice of element kind; C03_m8: a destructor that panics while a Drain drops its remainder -- C03 armed no destructor panics; "
-       "C16_m8: `fn rustc_iter(&self) -> Iter<'a, K, V>` on `Drain<'a>` satisfies the three signature rules U, B, L -- closed by a fourth rule (S) with its own theorem in C16b). "
+       "C16_m8: `fn rustc_iter(&self) -> Iter<'a, K, V>` on `Drain<'a>` satisfies the three signature rules U, B, L -- closed by a fourth rule (S) with its own theorem in C16b); re-running all twenty under seeds 2 and 3 showed that C11_m8 (clone_from between maps of equal capacity() and different bucket counts) had been caught by luck only -- closed by the deterministic `make_clone_from_capacity_script`. "
        "Every miss was traced to a gap in the *generators / operations / element kinds / relevance predicates* (never to a proof) and closed; see each `meta.json` "
        "(`check_history`). The rounds also exposed three false alarms of my own (13.5). Final state: all 160 are reported by the check of their own property with a concrete, shrunk replay "
        "(`seeded/MATRIX.json`: every check against every seed of rounds 1-2, quick tier). Column `also` lists the other "
